@@ -61,6 +61,59 @@ Proof.
   apply (hget_hset_other st l c l' Hn).
 Qed.
 
+(* duplication only appends cells *)
+Lemma dup_grows fuel : forall st v v' st', dup fuel st v = DOk v' st' -> grows st st'.
+Proof.
+  induction fuel as [|k IH]; intros st v v' st' H; [discriminate|].
+  cbn [dup] in H. destruct v; try (inversion H; subst; apply grows_refl).
+  - destruct (hget st l) as [[items|?|? ?]|]; try (inversion H; subst; apply grows_refl).
+    destruct (map_state _ st items) as [[items' s1]|] eqn:Hm; [|discriminate].
+    unfold alloc in H. inversion H; subst.
+    eapply grows_trans; [|exists [CList items']; reflexivity].
+    apply (map_state_inv _ grows) in Hm; [exact Hm|apply grows_refl|apply grows_trans|].
+    intros s x y sx Hf. destruct (dup k s x) eqn:Hd; [|discriminate]. inversion Hf; subst. eapply IH; eassumption.
+  - destruct (hget st l) as [[?|kvs|? ?]|]; try (inversion H; subst; apply grows_refl).
+    destruct (map_state _ st kvs) as [[kvs' s1]|] eqn:Hm; [|discriminate].
+    unfold alloc in H. inversion H; subst.
+    eapply grows_trans; [|exists [CDict kvs']; reflexivity].
+    apply (map_state_inv _ grows) in Hm; [exact Hm|apply grows_refl|apply grows_trans|].
+    intros s x y sx Hf. destruct (dup k s (snd x)) eqn:Hd; [|discriminate]. inversion Hf; subst. eapply IH; eassumption.
+Qed.
+
+Lemma grows_hget a b l : grows a b -> (l < length (heap a))%nat -> hget b l = hget a l.
+Proof. intros [more H] Hl. unfold hget. rewrite H. apply nth_error_app1. exact Hl. Qed.
+
+Lemma grows_length a b : grows a b -> (length (heap a) <= length (heap b))%nat.
+Proof. intros [more H]. rewrite H, app_length. lia. Qed.
+
+Lemma detach_grows fuel st c v v' s1 : detach fuel st c v = Ok v' s1 -> grows st s1.
+Proof.
+  unfold detach, dup_res. destruct (reaches fuel (heap st) v c).
+  - destruct (dup fuel st v) eqn:E; [|discriminate]. intros H; inversion H; subst. eapply dup_grows; exact E.
+  - intros H; inversion H; subst. apply grows_refl.
+Qed.
+
+Lemma detach_all_grows fuel c : forall items st r s1, detach_all fuel st c items = Ok r s1 -> grows st s1.
+Proof.
+  induction items as [|x tl IH]; intros st r s1 H; cbn [detach_all] in H; [inversion H; apply grows_refl|].
+  destruct (detach fuel st c x) as [x' sa|e sa| |w] eqn:E; cbn [bind] in H; try discriminate.
+  destruct (detach_all fuel sa c tl) as [tl' sb|e sb| |w] eqn:E2; cbn [bind] in H; try discriminate.
+  inversion H; subst. eapply grows_trans; [eapply detach_grows; exact E|eapply IH; exact E2].
+Qed.
+
+(* old cells other than l are untouched by: growth, then a write at l *)
+Lemma mods_grow_hset l st s1 c : grows st s1 -> mods_only l st (hset s1 l c).
+Proof.
+  intros G l' Hn Hl. rewrite hget_hset_other by exact Hn. apply grows_hget; assumption.
+Qed.
+
+Lemma mods_grow_hset_alloc l st s1 c c2 : grows st s1 -> mods_only l st (snd (alloc (hset s1 l c) c2)).
+Proof.
+  intros G l' Hn Hl. unfold alloc, hget. cbn [snd heap set_heap hset].
+  rewrite nth_error_app1 by (rewrite list_set_length; pose proof (grows_length _ _ G); lia).
+  change (hget (hset s1 l c) l' = hget st l'). rewrite hget_hset_other by exact Hn. apply grows_hget; assumption.
+Qed.
+
 Lemma find_eq_state fuel st : forall items v i r s, find_eq fuel st items v i = Ok r s -> s = st.
 Proof.
   induction items as [|x tl IH]; intros v i r s H; cbn in H; [inversion H; reflexivity|].
@@ -77,15 +130,24 @@ Proof.
          | (if (m =? ?c) then _ else _) = _ => destruct (m =? c) eqn:?
          | (if ((m =? ?c) || (m =? ?d)) then _ else _) = _ => destruct ((m =? c) || (m =? d)) eqn:?
          end.
-  - destruct args as [|a [|b t]]; try discriminate. inversion H; subst. apply mods_hset.
-  - destruct args as [|a [|b t]]; try discriminate. inversion H; subst. apply mods_hset.
+  - destruct args as [|a [|b t]]; try discriminate.
+    destruct (detach fuel st (VList l) a) as [a' sa|e sa| |w] eqn:E; cbn [bind] in H; try discriminate.
+    inversion H; subst. apply mods_grow_hset. eapply detach_grows; exact E.
+  - destruct args as [|a [|b t]]; try discriminate.
+    destruct (detach fuel st (VList l) a) as [a' sa|e sa| |w] eqn:E; cbn [bind] in H; try discriminate.
+    inversion H; subst. apply mods_grow_hset. eapply detach_grows; exact E.
   - destruct args as [|a [|b [|c t]]]; try discriminate. destruct (negb (is_num b)); [discriminate|].
-    destruct (insert_array items (to_int (num_bits b)) a); [|discriminate]. inversion H; subst. apply mods_hset.
+    destruct (detach fuel st (VList l) a) as [a' sa|e sa| |w] eqn:E; cbn [bind] in H; try discriminate.
+    destruct (insert_array items (to_int (num_bits b)) a'); [|discriminate]. inversion H; subst.
+    apply mods_grow_hset. eapply detach_grows; exact E.
   - destruct items; inversion H; subst; apply mods_hset.
   - destruct (rev items); inversion H; subst; apply mods_hset.
   - destruct (negb (forallb _ args)); [discriminate|].
-    match type of H with context [?g args items] => destruct (g args items) as [result|] end; [|discriminate].
-    unfold alloc in H. inversion H; subst. apply (mods_hset_alloc l st (CList result) (CList result)).
+    match type of H with context [?g args []] => destruct (g args []) as [extra|] end; [|discriminate].
+    destruct (detach_all fuel st (VList l) extra) as [extra' s0|e s0| |w] eqn:E; cbn [bind] in H; try discriminate.
+    unfold alloc in H. inversion H; subst.
+    apply (mods_grow_hset_alloc l st s0 (CList (items ++ extra')) (CList (items ++ extra'))).
+    eapply detach_all_grows; exact E.
   - destruct args as [|a [|b [|c t]]]; try discriminate.
     destruct (negb (is_num a) || negb (is_num b)); [discriminate|].
     match type of H with (if ?c then _ else _) = _ => destruct c end; [discriminate|].
@@ -100,17 +162,18 @@ Proof.
   - discriminate.
 Qed.
 
-Theorem dict_method_local st l kvs m args v s1 l' :
-  dict_method st l kvs m args = Ok v s1 -> l' <> l -> hget s1 l' = hget st l'.
+Theorem dict_method_local fuel st l kvs m args v s1 l' :
+  dict_method fuel st l kvs m args = Ok v s1 -> l' <> l -> (l' < length (heap st))%nat -> hget s1 l' = hget st l'.
 Proof.
-  intros H Hn. unfold dict_method in H.
+  intros H. revert l'. change (mods_only l st s1). unfold dict_method in H.
   repeat match type of H with
          | (if (m =? ?c) then _ else _) = _ => destruct (m =? c) eqn:?
          end.
   - destruct args as [|a [|b [|c t]]]; try discriminate; destruct a; try discriminate.
-    inversion H; subst. apply hget_hset_other. exact Hn.
+    destruct (detach fuel st (VDict l) b) as [b' sa|e sa| |w] eqn:E; cbn [bind] in H; try discriminate.
+    inversion H; subst. apply mods_grow_hset. eapply detach_grows; exact E.
   - destruct args as [|a [|b t]]; try discriminate; destruct a; try discriminate.
-    destruct (assoc_str s kvs); inversion H; subst; [apply hget_hset_other; exact Hn|reflexivity].
+    destruct (assoc_str s kvs); inversion H; subst; [apply mods_hset|apply mods_refl].
   - destruct (negb (forallb _ args)); [discriminate|].
     match type of H with ?g args (VDict l) = _ => set (go := g) in * end.
     assert (Hg : forall a cur r s, go a cur = Ok r s -> s = st).
@@ -118,7 +181,7 @@ Proof.
       destruct x; try discriminate. destruct cur; try (inversion Hr; reflexivity).
       destruct (hget st l0) as [[?|ckvs|? ?]|]; try discriminate.
       destruct (assoc_str s0 ckvs); [eapply IH; exact Hr|inversion Hr; reflexivity]. }
-    rewrite (Hg _ _ _ _ H). reflexivity.
+    rewrite (Hg _ _ _ _ H). apply mods_refl.
   - discriminate.
 Qed.
 
